@@ -604,7 +604,7 @@ func (w *c28World) step(rt *rapid.T) {
 }
 
 func TestC28_HostMapModel(t *testing.T) {
-	vk.Check(t, 15000, func(rt *rapid.T) {
+	vk.Check(t, 30000, func(rt *rapid.T) {
 		w := c28NewWorld()
 		n := rapid.IntRange(1, 60).Draw(rt, "nops")
 		for i := 0; i < n; i++ {
